@@ -32,7 +32,7 @@ type Case struct {
 	LeafKey    string `json:"leaf_key"`
 	LeafAKI    string `json:"leaf_aki"` // "" (keyId) | absent | issuerserial | both
 	Depth      int    `json:"depth"`
-	Second     string `json:"second"` // none | off | flip
+	Second     string `json:"second"` // none | off | flip | recover | other-instance
 }
 
 var answerKinds = []string{"good", "revoked", "unknown", "http500", "garbage", "html", "empty", "trylater", "unauthorized", "internal"}
@@ -45,7 +45,7 @@ func genCase(t *rapid.T) Case {
 		LeafKey: rapid.SampledFrom([]string{"p256f", "rsa2048d", "p256f"}).Draw(t, "leafkey"),
 		LeafAKI: rapid.SampledFrom([]string{"", "", "absent", "issuerserial", "both"}).Draw(t, "aki"),
 		Depth:   rapid.IntRange(1, 2).Draw(t, "depth"),
-		Second:  rapid.SampledFrom([]string{"none", "off", "off", "flip"}).Draw(t, "second"),
+		Second:  rapid.SampledFrom([]string{"none", "off", "off", "flip", "recover", "recover", "other-instance"}).Draw(t, "second"),
 	}
 	n := rapid.IntRange(0, 4).Draw(t, "n")
 	for i := 0; i < n; i++ {
@@ -213,6 +213,40 @@ func runCase(c Case, x *ev.Ctx) error {
 			}
 			second = "flip-followed"
 		}
+	case "recover":
+		// nobody delivered an authentic answer in the first handshake (which is not an answer and must not be
+		// remembered as one); now the last HTTP responder is back and says revoked
+		last := -1
+		for i, r := range resp {
+			if r != nil {
+				last = i
+			}
+		}
+		if by < 0 && last >= 0 {
+			a := world.OCSPAnswer{Kind: "revoked"}
+			answers[last] = a
+			resp[last].Set(a)
+			want2, _ := decide(c, answers)
+			v2 := world.Ask(chk, chains)
+			if v2.Kind != want2 {
+				return fmt.Errorf("first handshake had no authentic answer (%s, strict=%v, cache=%v); then responder %d recovered and answers revoked: the second handshake answered %v, want %s", want, c.Strict, c.Cache, last, v2, want2)
+			}
+			second = "recovered-responder-followed"
+		}
+	case "other-instance":
+		// the same certificate is presented to ANOTHER validator instance of the process with the opposite
+		// strictness while the responders behave as before: its verdict follows its own configuration
+		if by < 0 {
+			other := world.NewOCSPChecker(world.OCSPOpts{Strict: !c.Strict, Cache: cache})
+			c2 := c
+			c2.Strict = !c.Strict
+			want2, _ := decide(c2, answers)
+			v2 := world.Ask(other, chains)
+			if v2.Kind != want2 {
+				return fmt.Errorf("no responder delivers an authentic answer; the instance with strict=%v answered %s, then an instance with strict=%v answered %v, want %s", c.Strict, want, c2.Strict, v2, want2)
+			}
+			second = "other-instance-own-strictness"
+		}
 	}
 	if second != "" {
 		x.Class(second)
@@ -241,7 +275,7 @@ var spec = ev.Spec[Case]{
 	ID:          "C02",
 	Gen:         genCase,
 	Run:         runCase,
-	Rule:        "rapid draws a responder list of 0..4 URLs over schemes {http, HTTP (upper case), https with an untrusted certificate, connection refused, ldap, ftp}, a behaviour per responder {good, revoked, unknown (issuer-signed or by an issuer-delegated responder), HTTP 500 + body, garbage, HTML page, empty body, OCSP error status tryLater / unauthorized / internalError}, strict on/off, cache 0 / 30 s, CA and leaf key types, leaf AKI form (keyId, absent, issuer+serial, both), chain depth, and a second handshake {none, all responders down, deciding responder flipped}. Reference model: walk the HTTP responders in order, the first authentic answer decides (revoked => reject), no authentic answer => reject iff strict and an HTTP responder is named. Oracle: verdict equality; HTTP responders before the deciding one were contacted, later ones and non-HTTP ones never; with the authentic answer cached the second handshake keeps the verdict although every responder is down; with nothing cacheable it follows the responders. Non-trivial: a non-answer before the deciding responder, or strict with all unavailable, or a second handshake; distinct by the full case shape.",
+	Rule:        "rapid draws a responder list of 0..4 URLs over schemes {http, HTTP (upper case), https with an untrusted certificate, connection refused, ldap, ftp}, a behaviour per responder {good, revoked, unknown (issuer-signed or by an issuer-delegated responder), HTTP 500 + body, garbage, HTML page, empty body, OCSP error status tryLater / unauthorized / internalError}, strict on/off, cache 0 / 30 s, CA and leaf key types, leaf AKI form (keyId, absent, issuer+serial, both), chain depth, and a second handshake {none, all responders down, deciding responder flipped, a responder recovering with 'revoked' after a first handshake without any authentic answer, the same certificate on another instance with the opposite strictness}. Reference model: walk the HTTP responders in order, the first authentic answer decides (revoked => reject), no authentic answer => reject iff strict and an HTTP responder is named. Oracle: verdict equality; HTTP responders before the deciding one were contacted, later ones and non-HTTP ones never; with the authentic answer cached the second handshake keeps the verdict although every responder is down; with nothing cacheable it follows the responders; a handshake without an authentic answer leaves nothing behind (the recovered responder decides, the other instance applies its own strictness). Non-trivial: a non-answer before the deciding responder, or strict with all unavailable, or a second handshake; distinct by the full case shape.",
 	Assumptions: []string{"only unambiguous answers are used here (issuer or properly delegated signer, right serial, or plainly no answer); forged responses are C05"},
 }
 
